@@ -337,7 +337,7 @@ def c09(chk):
     # tiny windows, one-slot mailbox, keep-alive on the other side only, ...): connected, listed, reachable
     # both ways, kept alive through an idle period, clean shutdown - whatever the setting
     import copy
-    odd = harness("oddcfg", out=os.path.join(vlib.WORK, "C09_oddcfg"), seed=chk.seed * 24, runs=24 if quick(chk) else 240,
+    odd = harness("oddcfg", out=os.path.join(vlib.WORK, "C09_oddcfg"), seed=chk.seed * 24, runs=26 if quick(chk) else 260,
                   jobs=12, files=4)
     odd["args"] = {}
     odd2 = copy.deepcopy(odd)
